@@ -260,4 +260,115 @@ theorem setBufCopy_f {p : Pool} (hI : Inv p) {o b : Nat} {bb : Buf} (ho : alive 
     · exact Or.inl (by simpa [setBufCopy] using h)
     · exact Or.inr (Or.inl (by simpa [setBufCopy] using h))
 
+/-! ### `_set_utf8` and the constructors -/
+
+theorem setUtf8_f {p : Pool} (hI : Inv p) {o : Nat} (ho : alive p o) (hA : p.objs tmpA = none) (hC : p.objs tmpC = none)
+    (hoA : o ≠ tmpA) (hoC : o ≠ tmpC) (us : List Nat) (m : Mode) :
+    (∃ p', setUtf8 o us m p = .ok () p' ∧ Succ p p' (· = o) ∧ alive p' o) ∨ ThrowUnch (setUtf8 o us m p) p := by
+  refine scope_f (mk := ctorUnits tmpA us) (body := setBufMove o tmpA m) (T := (· = o)) hA hoA ?_ ?_
+  · rcases stepF hI (.ctorUnits tmpA us) hA with ⟨p1, h1, s1, q1⟩ | ⟨p1, h1, f1, s1, q1⟩
+    · exact Or.inl ⟨p1, h1, s1, alive_of_view q1⟩
+    · refine Or.inr ⟨_, p1, h1, s1.shrink_dead (fun x hx _ => ?_), fun _ => f1⟩
+      simp only [Op.T] at hx; subst hx
+      exact ⟨hA, view_eq_none.mp q1⟩
+  · intro p1 s1 a1
+    obtain ⟨bA, hbA⟩ := a1
+    have ho1 : alive p1 o := alive_of_objs_eq (s1.objs o hoA) ho
+    have hC1 : p1.objs tmpC = none := by rw [s1.objs tmpC tmpC_ne_tmpA]; exact hC
+    rcases setBufMove_f s1.inv ho1 hbA hC1 hoC m with ⟨p2, h2, s2, a2, b2⟩ | h
+    · exact Or.inl ⟨p2, h2, s2, b2, a2⟩
+    · exact Or.inr (h.inScope ⟨bA, hbA⟩)
+
+/-- `ST::string(const char *, size, validation)` into the dead id `o` -/
+theorem ctorText_f {p : Pool} (hI : Inv p) {o : Nat} (ho : p.objs o = none) (hA : p.objs tmpA = none) (hC : p.objs tmpC = none)
+    (hoA : o ≠ tmpA) (hoC : o ≠ tmpC) (us : List Nat) (m : Mode) :
+    (∃ p', ctorText o us m p = .ok () p' ∧ Succ p p' (· = o) ∧ alive p' o) ∨ ThrowUnch (ctorText o us m p) p := by
+  have := ctorThen_f (body := setUtf8 o us m) (T := fun _ => False) hI ho (fun p1 s1 a1 => by
+    have hA1 : p1.objs tmpA = none := by rw [s1.objs tmpA (fun h => hoA h.symm)]; exact hA
+    have hC1 : p1.objs tmpC = none := by rw [s1.objs tmpC (fun h => hoC h.symm)]; exact hC
+    rcases setUtf8_f s1.inv a1 hA1 hC1 hoA hoC us m with ⟨p2, h2, s2, a2⟩ | h
+    · exact Or.inl ⟨p2, h2, s2.mono (fun x h => Or.inr h), a2⟩
+    · exact Or.inr (h.inScope a1))
+  rcases this with ⟨p', h1, s1, a1⟩ | h
+  · exact Or.inl ⟨p', h1, s1.mono (fun x h => h.elim (fun f => f.elim) id), a1⟩
+  · exact Or.inr h
+
+/-- `ST::string(char_buffer &&init, validation)` into the dead id `o` -/
+theorem ctorBufMove_f {p : Pool} (hI : Inv p) {o b : Nat} {bb : Buf} (ho : p.objs o = none) (hb : p.objs b = some bb)
+    (hC : p.objs tmpC = none) (hoC : o ≠ tmpC) (m : Mode) :
+    (∃ p', ctorBufMove o b m p = .ok () p' ∧ Succ p p' (fun x => x = b ∨ x = o) ∧ alive p' o) ∨ ThrowUnch (ctorBufMove o b m p) p := by
+  have hob : b ≠ o := fun h => by rw [h, ho] at hb; cases hb
+  refine ctorThen_f (body := setBufMove o b m) (T := (· = b)) hI ho (fun p1 s1 a1 => ?_)
+  have hb1 : p1.objs b = some bb := by rw [s1.objs b hob]; exact hb
+  have hC1 : p1.objs tmpC = none := by rw [s1.objs tmpC (fun h => hoC h.symm)]; exact hC
+  rcases setBufMove_f s1.inv a1 hb1 hC1 hoC m with ⟨p2, h2, s2, a2, _⟩ | h
+  · exact Or.inl ⟨p2, h2, s2.mono (fun x h => h.elim Or.inr Or.inl), a2⟩
+  · exact Or.inr (h.inScope a1)
+
+/-- `ST::string(const char_buffer &init, validation)` into the dead id `o` -/
+theorem ctorBufCopy_f {p : Pool} (hI : Inv p) {o b : Nat} {bb : Buf} (ho : p.objs o = none) (hb : p.objs b = some bb)
+    (hC : p.objs tmpC = none) (hoC : o ≠ tmpC) (m : Mode) :
+    (∃ p', ctorBufCopy o b m p = .ok () p' ∧ Succ p p' (· = o) ∧ alive p' o) ∨ ThrowUnch (ctorBufCopy o b m p) p := by
+  have hob : b ≠ o := fun h => by rw [h, ho] at hb; cases hb
+  have := ctorThen_f (body := setBufCopy o b m) (T := fun _ => False) hI ho (fun p1 s1 a1 => by
+    have hb1 : p1.objs b = some bb := by rw [s1.objs b hob]; exact hb
+    have hC1 : p1.objs tmpC = none := by rw [s1.objs tmpC (fun h => hoC h.symm)]; exact hC
+    rcases setBufCopy_f s1.inv a1 hb1 hC1 hoC m with ⟨p2, h2, s2, a2⟩ | h | ⟨p2, h2, f2, s2, v2⟩
+    · exact Or.inl ⟨p2, h2, s2.mono (fun x h => Or.inr h), a2⟩
+    · exact Or.inr (h.inScope a1)
+    · exact Or.inr ⟨_, p2, h2, s2, alive_of_prev_or_empty a1 v2, fun _ => f2⟩)
+  rcases this with ⟨p', h1, s1, a1⟩ | h
+  · exact Or.inl ⟨p', h1, s1.mono (fun x h => h.elim (fun f => f.elim) id), a1⟩
+  · exact Or.inr h
+
+/-! ### concatenation -/
+
+/-- `operator+(const string&, const string&)` into the dead id `d` -/
+theorem concatInto_f {p : Pool} (hI : Inv p) {d l r : Nat} {bl br : Buf} (hd : p.objs d = none) (hl : p.objs l = some bl)
+    (hr : p.objs r = some br) (hA : p.objs tmpA = none) (hdA : d ≠ tmpA) :
+    (∃ p', concatInto d l r p = .ok () p' ∧ Succ p p' (· = d) ∧ alive p' d) ∨ ThrowUnch (concatInto d l r p) p := by
+  have e : concatInto d l r p = (fresh tmpA (units p bl ++ units p br) >>= fun _ => withTemp tmpA (ctorMove d tmpA)) p := by
+    simp [concatInto, getObj_some hl, getObj_some hr, read_units hI hl, read_units hI hr]
+  rw [e]
+  refine scope_f (T := (· = d)) hA hdA ?_ ?_
+  · rcases fresh_f hI hA (units p bl ++ units p br) with h | h
+    · exact Or.inl h
+    · exact Or.inr h.throwUnch
+  · intro p1 s1 a1
+    have hd1 : p1.objs d = none := by rw [s1.objs d hdA]; exact hd
+    obtain ⟨p2, h2, s2, a2, b2⟩ := ctorMove_f s1.inv hd1 a1
+    exact Or.inl ⟨p2, h2, s2, b2, a2⟩
+
+/-- `o += s` (`s` may be `o` itself) -/
+theorem appendStr_f {p : Pool} (hI : Inv p) {o s : Nat} (ho : alive p o) (hs : alive p s) (hA : p.objs tmpA = none)
+    (hB : p.objs tmpB = none) (hoB : o ≠ tmpB) :
+    (∃ p', appendStr o s p = .ok () p' ∧ Succ p p' (· = o) ∧ alive p' o) ∨ ThrowUnch (appendStr o s p) p := by
+  obtain ⟨bo, hbo⟩ := ho
+  obtain ⟨bs, hbs⟩ := hs
+  refine scope_f (mk := concatInto tmpB o s) (body := assignMove o tmpB) (T := (· = o)) hB hoB ?_ ?_
+  · exact concatInto_f hI hB hbo hbs hA tmpB_ne_tmpA
+  · intro p1 s1 a1
+    obtain ⟨p2, h2, s2, a2, b2⟩ := assignMove_f s1.inv (alive_of_objs_eq (s1.objs o hoB) ⟨bo, hbo⟩) a1
+    exact Or.inl ⟨p2, h2, s2, b2, a2⟩
+
+/-- `o += cstr` -/
+theorem appendText_f {p : Pool} (hI : Inv p) {o : Nat} (ho : alive p o) (hT : TempsDead p) (hoT : ¬ isTemp o) (us : List Nat) (m : Mode) :
+    (∃ p', appendText o us m p = .ok () p' ∧ Succ p p' (· = o) ∧ alive p' o) ∨ ThrowUnch (appendText o us m p) p := by
+  have hoA : o ≠ tmpA := fun h => hoT (Or.inl h)
+  have hoB : o ≠ tmpB := fun h => hoT (Or.inr (Or.inl h))
+  have hoD : o ≠ tmpD := fun h => hoT (Or.inr (Or.inr (Or.inr h)))
+  have dA := hT tmpA isTemp_A
+  have dB := hT tmpB isTemp_B
+  have dC := hT tmpC isTemp_C
+  have dD := hT tmpD isTemp_D
+  have e : appendText o us m = (ctorText tmpD us m >>= fun _ => withTemp tmpD (appendStr o tmpD)) := rfl
+  rw [e]
+  refine scope_f (T := (· = o)) dD hoD (ctorText_f hI dD dA dC tmpD_ne_tmpA tmpD_ne_tmpC us m) ?_
+  intro p1 s1 a1
+  have hA1 : p1.objs tmpA = none := by rw [s1.objs tmpA (fun h => tmpD_ne_tmpA h.symm)]; exact dA
+  have hB1 : p1.objs tmpB = none := by rw [s1.objs tmpB (fun h => tmpD_ne_tmpB h.symm)]; exact dB
+  rcases appendStr_f s1.inv (alive_of_objs_eq (s1.objs o hoD) ho) a1 hA1 hB1 hoB with ⟨p2, h2, s2, a2⟩ | h
+  · exact Or.inl ⟨p2, h2, s2.mono (fun x h => Or.inl h), alive_of_objs_eq (s2.objs tmpD (fun h => hoD h.symm)) a1, a2⟩
+  · exact Or.inr (h.inScope a1)
+
 end StVerif.StrPool
